@@ -6,7 +6,10 @@ Case kinds (all JSON-able):
   {'k':'r', 'text': ...}
         an arbitrary (mutated / malformed / SyntaxError-form) text: correspondence + totality only
   {'k':'l', 'mods':[...], 'links':[...], 'exc':{...}, 'limit': None|int, 'order': 'b'|'s',
-   optional: 'tblimit': int (sys.tracebacklimit), 'skip': int (hand over tb.tb_next), 'seq': 'dict'|'build'}
+   optional: 'tblimit': int (sys.tracebacklimit), 'skip': int (hand over tb.tb_next), 'seq': 'dict'|'build',
+   'prior': [capture, ...] earlier captures of the same session (exception part only), capture = an 'exc' spec
+            ('cname' bare class name, 'outer' enclosing class / function, 'set' naming attributes assigned right before
+            the raise, kind 'same' = the class object of the last capture) + 'via': 'ep'|'pe' + optional 'm'}
         a generated program (nested calls through generated modules, lambdas, exec, recursion, functions that
         re-raise the exception they caught ...) that raises; the live exception goes through ExceptionInfo /
         TracebackInfo / print_exception and through the traceback module ('order': who is asked first)
@@ -150,7 +153,11 @@ class C16(Property):
             'identical) was read into linecache by linecache.getlines, by an earlier boltons report or by an earlier '
             'traceback-module report, the file was rewritten with the same or another mtime, made undecodable or '
             'removed; module globals may carry a __file__ that is not the code\'s file name; sys.tracebacklimit may be '
-            'set (>= 1); the caller may hand over tb.tb_next. First in the stream: an enumerated family of ~400 small '
+            'set (>= 1); the caller may hand over tb.tb_next; the failing run may be the last capture of a session: one to '
+            'three other exceptions are raised and captured first (ExceptionInfo and print_exception, either first) whose '
+            'classes share module and bare name with the last one (nested in other classes / functions), share the '
+            'qualified name across modules, are redefined, shadow a builtin, or are the same class object whose '
+            '__module__ / __qualname__ / __name__ is reassigned between the captures. First in the stream: an enumerated family of ~520 small '
             'live cases over all of these dimensions; then all texts with <= 2 frames over the option alphabet; then '
             'seeded random texts (non-ASCII paths, quotes, frame-like fragments), adversarial mutations and random '
             'live cases. Non-trivial = (t) at least one frame and the text is in the statement\'s domain, (r) the '
